@@ -2,18 +2,25 @@
 # usage: run.sh <property id> <quick|thorough>          run the check of one property
 #        run.sh <property id> replay <replay file>      re-run one recorded violation
 # Rebuilds the check binary from /repo's current working tree (build tag verif) on every call.
-cd /verif || exit 2
+# VERIF_ROOT (default: the directory of this script) and VERIF_REPO (default /repo) allow a background
+# sweep from a snapshot (vp run --with-repo); the registered commands use the defaults.
+root=${VERIF_ROOT:-$(cd "$(dirname "$0")" && pwd)}
+cd "$root" || exit 2
 . ./env.sh
+export VERIF_ROOT="$root"
 mkdir -p .bin .cache .work
+if [ -n "$VERIF_REPO" ] && [ "$root" != "/verif" ]; then
+  ( cd mc && go mod edit -replace github.com/blues/jsonata-go="$VERIF_REPO" )
+fi
 tmp=.bin/check.$$
-( cd mc && cp -f /repo/go.sum go.sum 2>/dev/null; go build -tags verif -o ../$tmp ./cmd/check ) || { echo "HARNESS-ERROR build failed"; rm -f $tmp; exit 2; }
+( cd mc && cp -f ${VERIF_REPO:-/repo}/go.sum go.sum 2>/dev/null; go build -tags verif -o ../$tmp ./cmd/check ) || { echo "HARNESS-ERROR build failed"; rm -f $tmp; exit 2; }
 mv -f $tmp .bin/check-$1 || exit 2
 if [ "$1" = "C06" ] && [ "$2" != "replay" ]; then
   # auxiliary free-running pass: the same harness bodies built with the race detector
   ( cd mc && go build -race -tags verif -o ../.bin/check-race.$$ ./cmd/check ) && mv -f .bin/check-race.$$ .bin/check-race || { echo "HARNESS-ERROR race build failed"; exit 2; }
 fi
 case "$2" in
-  replay) exec .bin/check-$1 -replayfile "$3" ;;
-  quick|thorough) exec .bin/check-$1 -prop "$1" -tier "$2" ;;
+  replay) exec .bin/check-$1 -root "$root" -replayfile "$3" ;;
+  quick|thorough) exec .bin/check-$1 -root "$root" -prop "$1" -tier "$2" ;;
   *) echo "usage: run.sh <id> quick|thorough|replay [file]"; exit 2 ;;
 esac
